@@ -58,7 +58,14 @@ Lemma dep_visits_psim pr w sd sr dl vsd vsr :
   first_failure vsd = None /\
   forall r, deps_up_to_date r vsd = deps_up_to_date r vsr.
 Proof.
-  intros P. revert vsd vsr. induction dl as [|x dl IH]; intros vsd vsr Hd Hr Hff; simpl in Hd, Hr.
+  intros P Hd0 Hr0 Hff0.
+  assert (Hlab : map fst vsd = map fst vsr).
+  { rewrite (dep_visits_labels _ _ _ Hd0), (dep_visits_labels _ _ _ Hr0). reflexivity. }
+  enough (H : first_failure vsd = None /\ forall r, deps_match r vsd = deps_match r vsr).
+  { destruct H as [H1 H2]. split; [exact H1|]. intros r. unfold deps_up_to_date, no_removed_deps.
+    rewrite (H2 r), Hlab. reflexivity. }
+  clear Hlab. revert vsd vsr Hd0 Hr0 Hff0.
+  induction dl as [|x dl IH]; intros vsd vsr Hd Hr Hff; simpl in Hd, Hr.
   - inversion Hd; inversion Hr; subst. split; reflexivity.
   - destruct (lookup x (b_vis sd)) as [vd|] eqn:Hxd; [|discriminate].
     destruct (lookup x (b_vis sr)) as [vr|] eqn:Hxr; [|discriminate].
@@ -70,7 +77,7 @@ Proof.
     destruct (IH vsd' vsr' eq_refl eq_refl Hff') as (F1 & F3).
     destruct (ps_vis _ _ _ _ P x vd vr Hxd Hxr Okr) as (Okd & Hch & Hst).
     simpl. rewrite Okd. simpl. split; [exact F1|].
-    intros r. unfold deps_up_to_date in *. cbn [forallb fst snd]. rewrite (F3 r). f_equal.
+    intros r. unfold deps_match in *. cbn [forallb fst snd]. rewrite (F3 r). f_equal.
     destruct (lookup x (r_deps r)) as [prev|]; [|reflexivity].
     rewrite <- Hch. destruct (v_changed vd) eqn:E; simpl.
     + rewrite !andb_false_r. reflexivity.
@@ -284,7 +291,8 @@ Proof.
   { unfold skip_cond, r. cbn [dry_of c_always]. rewrite (Hdu (rec_of w l)).
     destruct (deps_up_to_date (rec_of w l) vsr) eqn:Hdur; [|rewrite !andb_false_r; reflexivity].
     assert (Hunch : forall dl vd0, In (dl, vd0) vsr -> v_changed vd0 = false).
-    { intros dl vd0 Hin. unfold deps_up_to_date in Hdur. rewrite forallb_forall in Hdur.
+    { intros dl vd0 Hin. unfold deps_up_to_date in Hdur. apply andb_prop in Hdur. destruct Hdur as [Hdur _].
+      unfold deps_match in Hdur. rewrite forallb_forall in Hdur.
       specialize (Hdur (dl, vd0) Hin). cbn [fst snd] in Hdur.
       destruct (lookup dl (r_deps (rec_of w l))); [|discriminate].
       apply andb_prop in Hdur. destruct Hdur as [_ Hn]. apply negb_true_iff in Hn. exact Hn. }
